@@ -36,7 +36,7 @@ _NO_CONFIG_RAW = object()
 
 def generate(d, process, sensor, cal, scratch, name, *, cse=True, filtering=5.0, max_dt=0.1, kind="ekf", rng=None, container="set",
              raw_noise=False, config_as_dict=False, noise_keys="same", model_obj=None, symbol_assumptions=None, namespace="verifns",
-             config_raw=_NO_CONFIG_RAW, raw_maps=None):
+             config_raw=_NO_CONFIG_RAW, raw_maps=None, config_override=_NO_CONFIG_RAW):
     """returns paths; raises whatever the generator raises.  `raw_maps`: optional {"sensor_models": ..., "sensor_noises": ...} handed to
     the generator exactly as given (e.g. readings and noises keyed with different spellings of the same names)"""
     from formak import cpp
@@ -52,6 +52,8 @@ def generate(d, process, sensor, cal, scratch, name, *, cse=True, filtering=5.0,
         cfg = {"common_subexpression_elimination": cse, "innovation_filtering": filtering, "max_dt_sec": max_dt}
     if config_raw is not _NO_CONFIG_RAW:   # hand the entry point exactly this `config` argument (None, a partial dict, ...)
         cfg = config_raw
+    if config_override is not _NO_CONFIG_RAW:   # the same under the name the C15 streams use
+        cfg = config_override
     # the noise map may key its readings by Symbol where the sensor model keys them by str (names are what counts)
     nk = (lambda r_: sympy.Symbol(r_)) if noise_keys == "symbol" else (lambda r_: r_)
     cal_map = {am.get(s, s): float(cal[s.name]) for s in d.calibration}
